@@ -19,7 +19,7 @@ RULE = ("C01's schemas and reachable states (a valid prefix history), then faili
         "fields/include_field.py during loads/load; whenever such an operation raises, M-same compares values at all "
         "depths, user-defined flags and identities of nested configurations before/after; non-trivial = >= 2 "
         "raising listed operations judged; distinct = distinct (schema, history)")
-REQUIRED = ("foreign_items_rejected_by_a_second_configuration", "readonly_assignments_rejected", "rejected_replacements_through_an_equal_key_of_another_type", "dotted_continuations_into_nested_dicts_rejected", "derived_containers_rejected_by_field_validator", "list_reuse_rejections", "wrong_root_documents_rejected", "incomplete_objects_rejected", "incomplete_maps_rejected", "dotted_into_dict_rejections", "corrupt_include_files", "same_checks", "raised:set", "raised:set-sub", "raised:ctor", "raised:listop", "raised:dictop",
+REQUIRED = ("failed_loads_after_the_environment_changed", "foreign_items_rejected_by_a_second_configuration", "readonly_assignments_rejected", "rejected_replacements_through_an_equal_key_of_another_type", "dotted_continuations_into_nested_dicts_rejected", "derived_containers_rejected_by_field_validator", "list_reuse_rejections", "wrong_root_documents_rejected", "incomplete_objects_rejected", "incomplete_maps_rejected", "dotted_into_dict_rejections", "corrupt_include_files", "same_checks", "raised:set", "raised:set-sub", "raised:ctor", "raised:listop", "raised:dictop",
             "raised:loads-unparsable", "raised:loads-include", "failpoint_injections_raised")
 ASSUMPTIONS = ["only the kinds of operation listed in the property are judged (a tree that parses but fails validation "
                "half way, extend / slice / update with a bad element are outside the statement)",
@@ -334,6 +334,42 @@ def run(case, ctx, res):
     # container - and this configuration is unchanged
     if _foreign_item_rejections(drv, ctx, res) is False:
         return
+    if len(case["ops"]) % 5 == 0 and not _failed_loads_after_environment_change(ctx, res, len(case["prefix"])):
+        return
+    # first assignments to names a dynamic configuration does not know yet: whatever is refused (a field object, a schema,
+    # a class ...) leaves no trace of the name
+    holders = [("", drv.cfg)] if drv.root.get("dynamic") else []
+    for p, nd in spec.walk(drv.root):
+        if nd["kind"] == "schema" and nd.get("dynamic") and "[]" not in p:
+            try:
+                h = spec.get_path(drv.cfg, p)
+            except Exception:
+                continue
+            if isinstance(h, ctx.cc.Config):
+                holders.append((p, h))
+    for hp, holder in holders[:3]:
+        for n, value in enumerate((ctx.cc.IntField(), ctx.cc.Schema(), ctx.cc.StringField(default="x"), ctx.cc.Config, object())):
+            key = "zz_unknown_%d" % n
+            before = drv.snapshot()
+            had = key in holder
+            route = ("attr", "dotted", "item")[n % 3]
+            try:
+                if route == "attr":
+                    setattr(holder, key, value)
+                elif route == "item":
+                    holder[key] = value
+                else:
+                    drv.cfg[(hp + "." if hp else "") + key] = value
+            except Exception:
+                res.count("first_assignments_to_unknown_dynamic_names_rejected")
+                d = before.diff(drv.snapshot())
+                if d or ((key in holder) and not had):
+                    res.viol("M-same", "set-dynamic-unknown", "the first assignment to the unknown name %s of a dynamic configuration (%s, a %s) "
+                             "raised, but the configuration changed: %s" % ((hp + "." if hp else "") + key, route, type(value).__name__,
+                                                                            "; ".join(d[:4]) or "the name is now a member"))
+                    return
+            else:
+                res.count("first_assignments_to_unknown_dynamic_names_accepted")
     # assignments to names that cannot be assigned at all - computed fields without a setter, instance methods - are rejected
     # assignments by attribute / dotted path like any other, and leave the configuration as it was
     for p, nd in spec.walk(drv.root):
@@ -364,6 +400,59 @@ def run(case, ctx, res):
                     return
     if judged >= 2:
         res.nontrivial(case["schema"], case["prefix"], case["ops"])
+
+
+def _failed_loads_after_environment_change(ctx, res, seed):
+    """Fields bound to environment variables; the variables change after the configuration was built; documents that cannot be
+    parsed / whose include cannot be resolved are loaded: the configuration stays as it was built."""
+    import os
+
+    from ..common import Snapshot
+
+    cc = ctx.cc
+    names = ("VFC06E_PORT", "VFC06E_NAME", "VFC06E_DB_TIMEOUT")
+    if any(n in os.environ for n in names):
+        return True
+    schema = cc.Schema()
+    schema.port = cc.IntField(default=1, env="VFC06E_PORT")
+    schema.host = cc.StringField(default="example.com")
+    schema.inc = cc.IncludeField()
+    db = cc.Schema(env="VFC06E_DB")
+    schema.db = db
+    schema.db.name = cc.StringField(default="d", env="VFC06E_NAME")
+    schema.db.timeout = cc.IntField(default=30, env=True)
+    os.environ.update({"VFC06E_PORT": "8080", "VFC06E_NAME": "first", "VFC06E_DB_TIMEOUT": "30"})
+    cfg = schema()
+    if seed % 3 == 0:
+        cfg.host = "assigned.example.com"
+    # the environment changes after the configuration has been built
+    os.environ.update({"VFC06E_PORT": "9090", "VFC06E_DB_TIMEOUT": "5"})
+    if seed % 2:
+        os.environ["VFC06E_NAME"] = "second"
+    else:
+        del os.environ["VFC06E_NAME"]
+    for fmt in ("json", "yaml", "xml", "pickle", "bson"):
+        codec = cc.ConfigFormat.get(fmt)
+        good = codec.dumps(cfg, {"host": "h2", "db": {"name": "x"}})
+        docs = []
+        for how in ("truncate:4", "garbage", "empty"):
+            bad, fails = history.corrupt_doc(good, fmt, how)
+            if bad is not None and fails:
+                docs.append((how, bad))
+        docs.append(("missing-include", codec.dumps(cfg, {"host": "h3", "inc": os.path.join(ctx.dir, "no-such-include-file")})))
+        for how, bad in docs:
+            before = Snapshot(cfg)
+            try:
+                cfg.loads(bad, fmt)
+            except Exception:
+                res.count("failed_loads_after_the_environment_changed")
+                d = before.diff(Snapshot(cfg))
+                if d:
+                    res.viol("M-same", "loads-after-environment-change:" + how, "%s: the variables of bound fields changed after the "
+                             "configuration was built; a document that cannot be loaded (%s) raised, but the configuration changed: %s" % (
+                                 fmt, how, "; ".join(d[:4])))
+                    return False
+    return True
 
 
 def _foreign_item_rejections(drv, ctx, res):
